@@ -157,7 +157,8 @@ C07(sn, calls) ==
 (* C14 - Parallel policy                                                               *)
 FaultFree(calls) == \A k \in Idx(calls) : OK(calls[k])
 C14(sn, calls, res) ==
-  (sn.set.policy = "Parallel" /\ ~sn.set.deleting /\ FaultFree(calls) /\ res = "ok") =>
+  (sn.set.policy = "Parallel" /\ ~sn.set.deleting /\ ~sn.set.paused /\ sn.set.cached /\ sn.set.selectorOK
+     /\ FaultFree(calls) /\ res = "ok") =>
     /\ {Ints(calls[k])[1] : k \in {j \in Idx(calls) : IsPodCreate(calls[j])}}
           = {i \in D(sn) : PartAt(sn, i) = {} \/ \A p \in PartAt(sn, i) : DeadP(p)}
     /\ {Name(calls[k]) : k \in {j \in Idx(calls) : IsPodDelete(calls[j]) /\ IsCondemnedDelete(sn, calls, j)}}
@@ -202,7 +203,7 @@ C13(sn, calls, res) ==
        /\ \A j \in RevDeletes(calls) : j # k => Name(calls[j]) # Name(calls[k])   \* each once
   /\ Cardinality(del) <= IF Cardinality(un) > lim THEN Cardinality(un) - lim ELSE 0
   /\ \A x \in un : x.name \in del => \A y \in un : RevLess(y, x) => y.name \in del   \* oldest first
-  /\ (res = "ok" /\ FaultFree(calls)) =>
+  /\ (res = "ok" /\ FaultFree(calls) /\ sn.set.cached /\ ~sn.set.paused /\ sn.set.selectorOK) =>
         Cardinality(un) - Cardinality(del) <= lim
 
 (* C10 - ownership                                                                     *)
